@@ -1,3 +1,4 @@
+import BpModel.Proofs.JsonText
 import BpModel.Model.Json
 import BpModel.Props.C01
 /-!
@@ -86,5 +87,22 @@ theorem C16_leaves (n : Nat) (ms : List Nat) (x : Int) :
     Spec.json (.int n) (.int x) = .num x ∧ Spec.json (.enum n ms) (.int x) = .num x ∧
     Spec.json .bool (.int 1) = .bool true ∧ Spec.json .bool (.int 0) = .bool false := by
   simp [Spec.json]
+
+/-! ### the JSON TEXT (what `Json<Msg>()` and `to_json()` write) can be read back
+`JsonText.renderWith` is tied to the real text by exact string comparison on every run
+(`tools/ties.py:tie_json_text`); keys are field names, which never contain a quote. -/
+
+/-- the compact text of the C runtime is valid JSON for this reader and states exactly the value -/
+theorem C16_text_roundtrip_c (j : JsonText.JT) (hk : JsonText.keysOk j = true) :
+    JsonText.parse (JsonText.render j) = some j :=
+  JsonText.parse_render JsonText.compact JsonText.compact_ok j hk
+
+/-- likewise with `json.dumps`' default separators (Python `to_json()`) -/
+theorem C16_text_roundtrip_py (j : JsonText.JT) (hk : JsonText.keysOk j = true) :
+    JsonText.parse (JsonText.renderWith JsonText.pyDefault j) = some j :=
+  JsonText.parse_render JsonText.pyDefault JsonText.pyDefault_ok j hk
+
+example : String.ofList (JsonText.render (.obj [("a".toList, .num (-5)), ("b".toList, .arr [.bool true, .obj []]), ("c".toList, .arr [])])) =
+    "{\"a\":-5,\"b\":[true,{}],\"c\":[]}" := by decide +kernel
 
 end Bp.C16
